@@ -1,7 +1,7 @@
 import inspect
 import warnings
 from collections.abc import Mapping
-from functools import partial
+from functools import partial, wraps
 from typing import Callable, Dict, Type, TypeVar
 
 from ..utils import exceptions as exc
@@ -553,7 +553,21 @@ class ClassParser(BaseParser):
                         obj=self.obj,
                     )
 
-                __init__ = self.init_parser.wrap(parse_params=True, parse_result=False)
+                init_parser = self.init_parser
+
+                @wraps(init_func)
+                def __init__(_obj_self, *args, **kwargs):
+                    # like the generated __init__: an instance that is built as a part of another one continues in
+                    # the context it was made with (nesting depth, error routes) instead of starting a new parse
+                    parent = getattr(_obj_self, "__context__", None)
+                    if isinstance(parent, RuntimeContext):
+                        context = init_parser.make_context(context=parent)
+                    else:
+                        context = init_parser.options.make_context(self.obj)
+                    return init_parser.sync_call(
+                        (_obj_self, *args), kwargs, context=context, parse_params=True, parse_result=False
+                    )
+
                 __init__.__parser__ = self
                 # wrapped function is not as same as parse.obj
             else:
